@@ -76,6 +76,7 @@ template <class X> void norm_run(Ctx& c, const Str& s, const char* gen, uint64_t
                 c.violation("C08", fmt("norm/%s/%s/%s", X::tag(), owned ? "owned" : "borrowed", key.c_str()), what + fmt(" library=\"%s\" model=\"%s\" [%s]", esc(out).c_str(), esc(expect).c_str(), gen));
             }
             if ((mask & 63) != 0 && !b.u.owner) c.violation("C12", fmt("norm/%s/not-owner-after-normalize", X::tag()), what);
+            if (match) produced_equals_own_text<X>(c, b.u, "norm", owned ? "normalize-owned" : "normalize-borrowed", what);
             // idempotence
             int rc2 = b.normalize(mask); c.evaluations++;
             Str out2 = text_of<X>(c, b);
